@@ -297,3 +297,95 @@ def render(doc, rng, style="wild", bom=False, pad=0, eq_before_brace=None):
             out += lay.gap(must)
     out += lay.gap(False)
     return bytes(out)
+
+
+# ------------------------------------------------------------------ serialisation for the Coq spec (TextDoc.v)
+def ser(doc):
+    """prefix encoding of a document, parsed by ocaml/fam_spec.ml into TextDoc.doc"""
+    out = []
+
+    def sv(v):
+        k = v[0]
+        if k == "s":
+            out.extend(["S", v[1], hexs(v[2])])
+        elif k == "o":
+            out.extend(["O", str(len(v[1]))]); [sf(f) for f in v[1]]
+            out.append(str(len(v[2]))); [sv(x) for x in v[2]]
+        elif k == "a":
+            out.extend(["A", str(len(v[1]))]); [sv(x) for x in v[1]]
+        elif k == "ak":
+            out.extend(["K", str(len(v[1]))]); [sv(x) for x in v[1]]
+            out.append(str(len(v[2]))); [sf(f) for f in v[2]]
+        elif k == "h":
+            out.extend(["H", hexs(v[1])]); sv(v[2])
+
+    def sf(f):
+        if f[0] == "p":
+            _, name, undefined, pv = f
+            if pv[0] == "v":
+                out.extend(["PV", hexs(name), "1" if undefined else "0", hexs(pv[1])])
+            else:
+                out.extend(["PO", hexs(name), "1" if undefined else "0", str(len(pv[1]))]); [sf(x) for x in pv[1]]
+        else:
+            _, key, op, val = f
+            out.extend(["F", key[1], hexs(key[2]), "-" if op is None else str(OPS[op])]); sv(val)
+
+    out.append(str(len(doc)))
+    for f in doc:
+        sf(f)
+    return " ".join(out)
+
+
+def render_with_gaps(doc, rng, style="wild", bom=False):
+    """like render (no padding) but also returns the list of gaps, gap i preceding token i (last = trailing gap)"""
+    lay = Layout(rng, style)
+    toks = []
+
+    def sc(s):
+        toks.append((b'"' + s[2] + b'"', "q") if s[1] == "Q" else (s[2], "u"))
+
+    def fields(fs):
+        for f in fs:
+            if f[0] == "p":
+                _, name, undefined, pv = f
+                toks.append((b"[[" + (b"!" if undefined else b"") + name + b"]", "b"))
+                if pv[0] == "v":
+                    toks.append((pv[1], "u"))
+                else:
+                    fields(pv[1])
+                toks.append((b"]", "b"))
+                continue
+            _, key, op, val = f
+            sc(key)
+            if op is not None:
+                toks.append((op.encode(), "op"))
+            value(val)
+
+    def value(v):
+        k = v[0]
+        if k == "s":
+            sc(v)
+        elif k == "o":
+            toks.append((b"{", "b")); fields(v[1]); [value(x) for x in v[2]]; toks.append((b"}", "b"))
+        elif k == "a":
+            toks.append((b"{", "b")); [value(x) for x in v[1]]; toks.append((b"}", "b"))
+        elif k == "ak":
+            toks.append((b"{", "b")); [value(x) for x in v[1]]; fields(v[2]); toks.append((b"}", "b"))
+        elif k == "h":
+            toks.append((v[1], "u")); value(v[2])
+
+    fields(doc)
+    BOUNDARY_START = set(b"\t\n\x0b\x0c\r !#<=>[]}{")
+    gaps = [b""]
+    out = bytearray(b"\xef\xbb\xbf" if bom else b"")
+    for i, (b, kind) in enumerate(toks):
+        out += b
+        if i + 1 < len(toks):
+            must = kind == "u" and toks[i + 1][0][0] not in BOUNDARY_START
+            g = lay.gap(must)
+        else:
+            g = lay.gap(False)
+        gaps.append(g); out += g
+    if not toks:
+        pass
+    return bytes(out), gaps
